@@ -22,22 +22,30 @@ structure FcgiSt where
   bodyAlloc : Bool := false
 deriving Repr
 
+/-- `cache_` size after `if(cache_.size() < n) cache_.resize(max(n,16384),0)` -/
+def fcgiCap (st : FcgiSt) (n : Nat) : Nat := if st.cap < n then max n Gen.cacheMin else st.cap
+
+/-- state after `memcpy(ptr,&cache_[cache_start_],n); cache_start_+=n` -/
+def FcgiSt.consume (st : FcgiSt) (n : Nat) : FcgiSt := { st with cache := st.cache.drop n, start := st.start + n }
+
+/-- state after compaction, resize and one `read_some` that delivered `got` -/
+def FcgiSt.refill (st : FcgiSt) (n : Nat) (got : Bytes) (segs' : Segs) : FcgiSt :=
+  { st with cache := st.cache ++ got, start := 0, cap := fcgiCap st n, segs := segs' }
+
 /-- `async_read_from_socket(ptr,n,cb)` (+ `on_some_read_from_socket`) for `n > 0`:
 the `n` bytes, or the error passed to `cb`.  `none` in the first component flags a read started
-with an empty buffer (`&cache_[cache_end_]` at `cache_.size()`). -/
-def fcgiFill : Nat → Nat → FcgiSt → Option (Except Err Bytes) × FcgiSt
-  | 0, _, st => (some (.error .eof), st)
-  | fuel + 1, n, st =>
-    if st.cache.length ≥ n then
-      (some (.ok (st.cache.take n)), { st with cache := st.cache.drop n, start := st.start + n })
-    else
+with an empty buffer (`&cache_[cache_end_]` at `cache_.size()`).  `fuel` bounds the number of socket reads. -/
+def fcgiFill (fuel : Nat) (n : Nat) (st : FcgiSt) : Option (Except Err Bytes) × FcgiSt :=
+  if st.cache.length ≥ n then (some (.ok (st.cache.take n)), st.consume n)
+  else match fuel with
+    | 0 => (some (.error .eof), st)
+    | fuel + 1 =>
       -- window moved to the front (both branches of the compaction give cache_start_ = 0)
-      let cap := if st.cap < n then max n Gen.cacheMin else st.cap
-      let room := cap - st.cache.length
+      let room := fcgiCap st n - st.cache.length
       if room == 0 then (none, st)
       else match readSome room st.segs with
-      | none => (some (.error .eof), { st with start := 0, cap := cap, segs := [] })
-      | some (got, segs') => fcgiFill fuel n { st with cache := st.cache ++ got, start := 0, cap := cap, segs := segs' }
+      | none => (some (.error .eof), st.refill n [] [])
+      | some (got, segs') => fcgiFill fuel n (st.refill n got segs')
 
 structure FcgiHdr where
   version : Nat
@@ -80,6 +88,15 @@ def fcgiReadRecord (st : FcgiSt) (body : Bytes) : RecRes × FcgiSt :=
       | (none, st) => (.crash "read into full cache", st)
       | (some (.error e), st) => (.err e, st)
       | (some (.ok rb), st) => (.got h (body ++ rb.take h.contentLength), st)
+
+/-- how the protocol state machine gets its records: from the buffer-level connection state
+(`bufReader`) or, in the specification, from a plain byte stream (`flatReader`) -/
+structure RecReader (σ : Type) where
+  read : σ → Bytes → RecRes × σ
+  /-- `body_` owns storage -/
+  alloc : σ → Bool
+
+def bufReader : RecReader FcgiSt := ⟨fcgiReadRecord, (·.bodyAlloc)⟩
 
 /-! ## name-value pairs -/
 
@@ -142,101 +159,134 @@ inductive HdrRes
 deriving Repr
 
 /-- `params_record_expected` loop: `h` is the record just read, `body` the accumulated `body_` -/
-def fcgiParams : Nat → FcgiHdr → Bytes → Nat → FcgiSt → Except Outcome Bytes × FcgiSt
+def fcgiParams {σ : Type} (R : RecReader σ) : Nat → FcgiHdr → Bytes → Nat → σ → Except Outcome Bytes × σ
   | 0, _, _, _, st => (.error (.crash "out of fuel"), st)
   | fuel + 1, h, body, reqId, st =>
     if h.type != Gen.fcgi_params || h.requestId != reqId then (.error (.aborted .violation false false), st)
     else if h.contentLength != 0 then
       if body.length < Gen.paramsLimit then
-        match fcgiReadRecord st body with
+        match R.read st body with
         | (.err e, st) => (.error (.aborted e false false), st)
         | (.crash w, st) => (.error (.crash w), st)
-        | (.got h' body', st) => fcgiParams fuel h' body' reqId st
+        | (.got h' body', st) => fcgiParams R fuel h' body' reqId st
       else (.error (.aborted .violation false false), st)
     else (.ok body, st)
 
+/-- `content_length_` as computed in `params_record_expected` -/
+def fcgiOwnContentLength (env : Env) : Nat :=
+  match env.get? (bs Gen.hdrContentLength) with
+  | none => 0
+  | some v => if v.isEmpty then 0 else if atoll v ≤ 0 then 0 else (atoll v).toNat
+
+/-- the tail of `params_record_expected` for `content_length_ == 0`: the empty STDIN record is read
+as part of the header phase (`stdin_eof_expected`) -/
+def fcgiStdinEof {σ : Type} (R : RecReader σ) (r : FcgiReq) (st : σ) (out : List Outcome) :
+    List Outcome × Option FcgiReq × σ :=
+  match R.read st [] with
+  | (.err e, st) => (out ++ [.aborted e false false], none, st)
+  | (.crash w, st) => (out ++ [.crash w], none, st)
+  | (.got h2 _, st) =>
+    if h2.type != Gen.fcgi_stdin || h2.contentLength != 0 then (out ++ [.aborted .violation false false], none, st)
+    else (out, some r, st)
+
+/-- `on_start_request` after a BEGIN_REQUEST for the responder role was accepted: PARAMS records,
+`parse_pairs`, `CONTENT_LENGTH` -/
+def fcgiAfterBegin {σ : Type} (R : RecReader σ) (fuel : Nat) (reqId : Nat) (keep : Bool) (st : σ) (out : List Outcome) :
+    List Outcome × Option FcgiReq × σ :=
+  match R.read st [] with
+  | (.err e, st) => (out ++ [.aborted e false false], none, st)
+  | (.crash w, st) => (out ++ [.crash w], none, st)
+  | (.got h1 body1, st) =>
+    match fcgiParams R fuel h1 body1 reqId st with
+    | (.error o, st) => (out ++ [o], none, st)
+    | (.ok pbody, st) =>
+      let env := Env.empty.addAll (fcgiPairs true (pbody.length + 1) pbody []).2
+      let cl := fcgiOwnContentLength env
+      let r : FcgiReq := { env := env, requestId := reqId, keep := keep, cl := cl }
+      if cl == 0 then fcgiStdinEof R r st out else (out, some r, st)
+
+/-- answer to `FCGI_GET_VALUES`: `none` = malformed pairs (protocol violation) -/
+def fcgiGetValuesReply (concurrency : Bytes) (body : Bytes) : Option Bytes :=
+  let (ok, pairs) := fcgiPairs false (body.length + 1) body []
+  if !ok then none
+  else some (pairs.foldl (fun acc kv =>
+    if kv.1 == bs Gen.gvName0 || kv.1 == bs Gen.gvName1 then acc ++ fcgiAddPair kv.1 concurrency
+    else if kv.1 == bs Gen.gvName2 then acc ++ fcgiAddPair kv.1 [48]
+    else acc) [])
+
+/-- what `on_start_request` does with the first record of a request -/
+inductive StartRes
+  /-- stop: this outcome ends the connection -/
+  | stop (o : Outcome)
+  /-- a management reply was written (or the record ignored: `none`); read the next record -/
+  | again (reply : Option Outcome)
+  /-- BEGIN_REQUEST accepted -/
+  | begin (reqId : Nat) (keep : Bool)
+deriving Repr
+
+def fcgiOnStart (concurrency : Bytes) (alloc : Bool) (h : FcgiHdr) (body : Bytes) : StartRes :=
+  if h.version != Gen.fcgi_version_1 then .stop (.aborted .violation false false)
+  else if h.type == Gen.fcgi_get_values then
+    if !Gen.pairsEmptyGuard && body.isEmpty && !alloc then .stop (.crash "parse_pairs: &body_.front() of an unallocated vector")
+    else match fcgiGetValuesReply concurrency body with
+    | none => .stop (.aborted .violation false false)
+    | some reply =>
+      if !Gen.replyEmptyBodyGuard && reply.isEmpty && !alloc then .stop (.crash "io::buffer(body_): &front() of an unallocated vector")
+      else
+        let (content, framed) := fcgiShortReply reply h.paddingLength
+        .again (some (.mgmt Gen.fcgi_get_values_result content framed))
+  else if h.type != Gen.fcgi_begin_request then .again none
+  else if body.length != Gen.beginBodySize then .stop (.aborted .violation false false)
+  else
+    let role := be16 body Gen.beginOff_role
+    let keep := (body.getD Gen.beginOff_flags 0).toNat % 2 == Gen.fcgi_keep_conn
+    if role != Gen.fcgi_responder then
+      let b := List.replicate Gen.unknownRoleAssign.1 (UInt8.ofNat Gen.unknownRoleAssign.2)
+      if b.length < Gen.endBodySize then
+        -- the end-request body is written through &body_.front(): outside the vector
+        .stop (.crash "END_REQUEST body written through front() of a too short vector")
+      else
+        let b := b.set Gen.endOff_protocol_status (UInt8.ofNat Gen.fcgi_unknown_role)
+        let (content, framed) := fcgiShortReply b h.paddingLength
+        .again (some (.mgmt Gen.fcgi_end_request content framed))
+    else .begin h.requestId keep
+
 /-- `async_read_headers` → `on_start_request` → … until the completion handler is called.
 Management replies written on the way are collected in order. -/
-def fcgiHeaders (concurrency : Bytes) : Nat → FcgiSt → List Outcome → List Outcome × Option FcgiReq × FcgiSt
+def fcgiHeaders {σ : Type} (R : RecReader σ) (concurrency : Bytes) : Nat → σ → List Outcome → List Outcome × Option FcgiReq × σ
   | 0, st, out => (out ++ [.crash "out of fuel"], none, st)
   | fuel + 1, st, out =>
     -- reset_all(): body_.clear()
-    match fcgiReadRecord st [] with
+    match R.read st [] with
     | (.err e, st) => (out ++ [.aborted e false false], none, st)
     | (.crash w, st) => (out ++ [.crash w], none, st)
     | (.got h body, st) =>
-      if h.version != Gen.fcgi_version_1 then (out ++ [.aborted .violation false false], none, st)
-      else if h.type == Gen.fcgi_get_values then
-        if !Gen.pairsEmptyGuard && body.isEmpty && !st.bodyAlloc then (out ++ [.crash "parse_pairs: &body_.front() of an unallocated vector"], none, st)
-        else
-        let (ok, pairs) := fcgiPairs false (body.length + 1) body []
-        if !ok then (out ++ [.aborted .violation false false], none, st)
-        else
-          let reply := pairs.foldl (fun acc kv =>
-            if kv.1 == bs Gen.gvName0 || kv.1 == bs Gen.gvName1 then acc ++ fcgiAddPair kv.1 concurrency
-            else if kv.1 == bs Gen.gvName2 then acc ++ fcgiAddPair kv.1 [48]
-            else acc) []
-          if !Gen.replyEmptyBodyGuard && reply.isEmpty && !st.bodyAlloc then (out ++ [.crash "io::buffer(body_): &front() of an unallocated vector"], none, st)
-          else
-          let (content, framed) := fcgiShortReply reply h.paddingLength
-          fcgiHeaders concurrency fuel st (out ++ [.mgmt Gen.fcgi_get_values_result content framed])
-      else if h.type != Gen.fcgi_begin_request then fcgiHeaders concurrency fuel st out
-      else if body.length != Gen.beginBodySize then (out ++ [.aborted .violation false false], none, st)
-      else
-        let role := be16 body Gen.beginOff_role
-        let keep := (body.getD Gen.beginOff_flags 0).toNat % 2 == Gen.fcgi_keep_conn
-        if role != Gen.fcgi_responder then
-          let b := List.replicate Gen.unknownRoleAssign.1 (UInt8.ofNat Gen.unknownRoleAssign.2)
-          if b.length < Gen.endBodySize then
-            -- the end-request body is written through &body_.front(): outside the vector
-            (out ++ [.crash "END_REQUEST body written through front() of a too short vector"], none, st)
-          else
-            let b := b.set Gen.endOff_protocol_status (UInt8.ofNat Gen.fcgi_unknown_role)
-            let (content, framed) := fcgiShortReply b h.paddingLength
-            fcgiHeaders concurrency fuel st (out ++ [.mgmt Gen.fcgi_end_request content framed])
-        else
-          match fcgiReadRecord st [] with
-          | (.err e, st) => (out ++ [.aborted e false false], none, st)
-          | (.crash w, st) => (out ++ [.crash w], none, st)
-          | (.got h1 body1, st) =>
-            match fcgiParams (fuel + 1) h1 body1 h.requestId st with
-            | (.error o, st) => (out ++ [o], none, st)
-            | (.ok pbody, st) =>
-              let env := Env.empty.addAll (fcgiPairs true (pbody.length + 1) pbody []).2
-              let s := env.get? (bs Gen.hdrContentLength)
-              let cl : Int := match s with
-                | none => 0
-                | some v => if v.isEmpty then 0 else if atoll v ≤ 0 then 0 else atoll v
-              if cl == 0 then
-                match fcgiReadRecord st [] with
-                | (.err e, st) => (out ++ [.aborted e false false], none, st)
-                | (.crash w, st) => (out ++ [.crash w], none, st)
-                | (.got h2 _, st) =>
-                  if h2.type != Gen.fcgi_stdin || h2.contentLength != 0 then (out ++ [.aborted .violation false false], none, st)
-                  else (out, some { env := env, requestId := h.requestId, keep := keep, cl := 0 }, st)
-              else (out, some { env := env, requestId := h.requestId, keep := keep, cl := cl.toNat }, st)
+      match fcgiOnStart concurrency (R.alloc st) h body with
+      | .stop o => (out ++ [o], none, st)
+      | .again none => fcgiHeaders R concurrency fuel st out
+      | .again (some o) => fcgiHeaders R concurrency fuel st (out ++ [o])
+      | .begin reqId keep => fcgiAfterBegin R (fuel + 1) reqId keep st out
 
 /-! ## STDIN -/
 
-structure FcgiBody where
-  st : FcgiSt
+structure FcgiBody (σ : Type) where
+  st : σ
   /-- `body_`, `body_ptr_`, `read_length_`, `content_length_`, `request_id_` -/
   body : Bytes := []
   ptr : Nat := 0
   readLen : Nat := 0
   cl : Nat
   reqId : Nat
-deriving Repr
 
 /-- the `body_ptr_ < body_.size()` branch of `fastcgi::async_read_some` -/
-def fcgiTake (want : Nat) (b : FcgiBody) : Except Err (Bytes × FcgiBody) :=
+def fcgiTake {σ : Type} (R : RecReader σ) (want : Nat) (b : FcgiBody σ) : Except Err (Bytes × FcgiBody σ) :=
   let rest := b.body.length - b.ptr
   let s := min want rest
   let chunk := (b.body.drop b.ptr).take s
   let b := { b with ptr := b.ptr + s, readLen := b.readLen + s }
   let b := if b.ptr == b.body.length then { b with ptr := 0, body := [] } else b
   if b.readLen ≥ b.cl then
-    match fcgiReadRecord b.st b.body with
+    match R.read b.st b.body with
     | (.err e, _) => .error e
     | (.crash _, _) => .error .violation
     | (.got h body', st') =>
@@ -245,40 +295,36 @@ def fcgiTake (want : Nat) (b : FcgiBody) : Except Err (Bytes × FcgiBody) :=
   else .ok (chunk, b)
 
 /-- `fastcgi::async_read_some(p,s,h)` -/
-def fcgiReadSome (want : Nat) (b : FcgiBody) : Except Err (Bytes × FcgiBody) :=
+def fcgiReadSome {σ : Type} (R : RecReader σ) (want : Nat) (b : FcgiBody σ) : Except Err (Bytes × FcgiBody σ) :=
   if b.readLen == b.cl then .error .violation
-  else if b.ptr < b.body.length then fcgiTake want b
+  else if b.ptr < b.body.length then fcgiTake R want b
   else
-    match fcgiReadRecord b.st b.body with
+    match R.read b.st b.body with
     | (.err e, _) => .error e
     | (.crash _, _) => .error .violation
     | (.got h body', st') =>
       if h.type != Gen.fcgi_stdin || h.requestId != b.reqId || h.contentLength == 0 then .error .violation
       else
         let b := { b with st := st', body := body' }
-        if b.ptr < b.body.length then fcgiTake want b else .error .violation
+        if b.ptr < b.body.length then fcgiTake R want b else .error .violation
 
 /-! ## the connection -/
 
-def isApp : Outcome → Bool
-  | .app .. => true
-  | _ => false
-
 /-- one FastCGI connection: requests are served until an error, a request without
 `FCGI_KEEP_CONN`, or the end of the stream -/
-def fcgiConn (lim : Limits) (concurrency : Bytes) : Nat → FcgiSt → List Outcome
+def fcgiConn {σ : Type} (R : RecReader σ) (lim : Limits) (concurrency : Bytes) : Nat → σ → List Outcome
   | 0, _ => [.crash "out of fuel"]
   | fuel + 1, st =>
-    match fcgiHeaders concurrency (fuel + 1) st [] with
+    match fcgiHeaders R concurrency (fuel + 1) st [] with
     | (out, none, _) => out
     | (out, some r, st) =>
-      let (o, b) := runRequest lim fcgiReadSome (Head.ofEnv r.env) { st := st, cl := r.cl, reqId := r.requestId }
-      if isApp o && r.keep then out ++ o :: fcgiConn lim concurrency fuel b.st
+      let (o, b) := runRequest lim (fcgiReadSome R) (Head.ofEnv r.env) { st := st, cl := r.cl, reqId := r.requestId }
+      if isApp o && r.keep then out ++ o :: fcgiConn R lim concurrency fuel b.st
       else out ++ [o]
 
 def streamLen (segs : Segs) : Nat := (segs.map List.length).sum
 
 def fcgiRun (lim : Limits) (concurrency : Bytes) (segs : Segs) : List Outcome :=
-  fcgiConn lim concurrency (streamLen segs + 2) { segs := segs }
+  fcgiConn bufReader lim concurrency (streamLen segs + 2) { segs := segs }
 
 end Cppcms.C01
